@@ -152,6 +152,50 @@ where
     core::mem::forget(popped);
 }
 
+static mut ZDROPS: u8 = 0;
+/// a zero-sized element type with a destructor: element size must not matter to the drop accounting
+pub struct Zst;
+impl Drop for Zst {
+    fn drop(&mut self) {
+        unsafe {
+            ZDROPS += 1;
+        }
+    }
+}
+
+fn check_drop_zst<const L: usize>()
+where
+    [Zst; L]: RealArray<Zst> + AsMut<[Zst]> + AsRef<[Zst]>,
+{
+    let mut b = ArrayBuf::<Zst, [Zst; L]>::new();
+    let size: usize = kani::any();
+    kani::assume(size <= L);
+    let recv: usize = kani::any();
+    kani::assume(if L == 0 { recv == 0 } else { recv < L });
+    b.size = size;
+    b.recv_idx = recv;
+    b.send_idx = if L == 0 { 0 } else { (recv + size) % L };
+    unsafe {
+        let p = b.buffer.as_mut_ptr() as *mut Zst;
+        let mut k = 0;
+        while k < L {
+            if k < size {
+                p.add((recv + k) % L).write(Zst);
+            }
+            k += 1;
+        }
+    }
+    let pop_first: bool = kani::any();
+    let mut popped = 0usize;
+    if pop_first && size > 0 {
+        core::mem::forget(b.pop());
+        popped = 1;
+    }
+    assert!(b.len() == size - popped, "[C19] len() counts zero-sized elements too");
+    drop(b);
+    assert!(unsafe { ZDROPS } as usize == size - popped, "[C19] dropping the buffer drops every element still inside exactly once, whatever the element size (zero-sized elements included)");
+}
+
 #[kani::proof]
 fn new_buffer_is_empty() {
     let b = ArrayBuf::<u8, [u8; 3]>::new();
@@ -208,6 +252,9 @@ inst!(pop_l1, check_pop::<1>());
 inst!(pop_l2, check_pop::<2>());
 inst!(pop_l3, check_pop::<3>());
 inst!(pop_l4, check_pop::<4>());
+inst!(drop_zst_l0, check_drop_zst::<0>());
+inst!(drop_zst_l2, check_drop_zst::<2>());
+inst!(drop_zst_l3, check_drop_zst::<3>());
 inst!(drop_l0, check_drop::<0>());
 inst!(drop_l1, check_drop::<1>());
 inst!(drop_l2, check_drop::<2>());
